@@ -178,6 +178,7 @@ def handle : List String → String
   -- overlapping lookups: GetKey holds the cache lock across the backend fetch, so the pinned request is served by its
   -- own fetch (pinned_key_never_stale: never by an entry of another id), whatever arrives meanwhile
   | ["cacherace", _e, _k] => "ok p=1"
+  | ["cacherace", _e, _k, "rev"] => "ok p=1"
   | ["delays", k] =>
     match k.toNat? with
     | some k => "ok " ++ showNats ((List.range k).map delaySeq)
